@@ -347,3 +347,69 @@ def indep_errors(rng, repo, docs, T, lockstep):
     if keep63:
         L += ["cons 63 exportxml", "destroy 63"]
     return "\n".join(L) + "\n"
+
+
+# ---------------------------------------------------------------------------------------------
+# A topology, its dup and the dup of the dup, taken after state-emptying mutations; then one thread per topology
+# mutates and reads ITS topology and destroys it (kind indep-faulty: fresh-process reference per thread, ASan, TSan)
+
+def lockstep_merge(rng, progs):
+    T = len(progs)
+    pos = [0] * T
+    out = [[] for _ in range(T)]
+    while any(pos[i] < len(progs[i]) for i in range(T)):
+        u = rng.choice([i for i in range(T) if pos[i] < len(progs[i])])
+        out[u].append(progs[u][pos[u]])
+        pos[u] += 1
+        for i in range(T):
+            out[i].append("barrier")
+    return out
+
+
+def indep_dups(rng, repo, docs, lockstep):
+    L = ["# kind: indep-faulty",
+         "init 63", "load 63 0 bind=0 xml " + docs[sorted(docs)[0]]["plain"], "cons 63 exportxml",
+         "init 62", "load 62 0 bind=0 xml /nonexistent/file.xml", "destroy 62",
+         "init 0"]
+    if rng.random() < 0.4:
+        L.append("load 0 0 bind=0 xml " + xml_path(repo, "fakecpukinds.xml"))
+    else:
+        L += ["load 0 0 bind=0 synthetic " + rng.choice(SYNTH), "mod 0 cpukind 0x0f CoreType big", "mod 0 cpukind 0xf0 CoreType little",
+              "mod 0 cpukind 0xff00 FrequencyMaxMHz 3000"]
+    # some state to empty
+    L += ["mod 0 infos kind0 add Extra one", "mod 0 infos kind1 add Extra two", "mod 0 infos root add Custom rootvalue", "mod 0 infos topo add TopoKey topovalue",
+          "mod 0 infos pu0 add PuKey pv", "mod 0 distadd PU 4", "mod 0 distadd NUMANode 2", "mod 0 maset 2 0", "mod 0 maset 3 1", "mod 0 maregister", "mod 0 maset 8 0"]
+    empt = ["mod %d infos kind0 clear", "mod %d infos kind1 clear", "mod %d infos kind2 clear", "mod %d infos root clear", "mod %d infos topo clear",
+            "mod %d infos pu0 clear", "mod %d distremove", "mod %d restrict 0x1"]
+    for e in rng.sample(empt, rng.randrange(2, len(empt) + 1)):
+        L.append(e % 0)
+    L += ["mod 0 refresh", "dupto 0 1"]
+    for e in rng.sample(empt, rng.randrange(0, 4)):
+        L.append(e % 1)
+    L += ["mod 1 refresh", "dupto 1 2"]
+    progs = []
+    for i in range(3):
+        p = []
+        for _ in range(rng.randrange(3, 8)):
+            r = rng.random()
+            if r < 0.45:
+                p.append("mod %d infos %s %s K%d%d v%d-%d" % (i, rng.choice(["kind0", "kind0", "kind1", "kind2", "root", "topo", "pu0"]),
+                                                                rng.choice(["add", "add", "replace"]), i, rng.randrange(3), i, rng.randrange(100)))
+            elif r < 0.55:
+                p.append("mod %d distadd %s %d" % (i, rng.choice(["PU", "Core"]), rng.choice([2, 4])))
+            elif r < 0.65:
+                p.append("mod %d maset %d %d" % (i, rng.choice([2, 3, 8]), rng.randrange(2)))
+            elif r < 0.7:
+                p.append("mod %d refresh" % i)
+            else:
+                p.append("cons %d %s" % (i, rng.choice(["cpukinds", "cpukinds", "exportxml", "traverse", "helpers", "mameta", "distget"])))
+        p += ["mod %d refresh" % i, "cons %d cpukinds" % i, "cons %d traverse" % i, "cons %d exportxml" % i, "destroy %d" % i]
+        progs.append(p)
+    if lockstep:
+        progs = lockstep_merge(rng, progs)
+    L.append("threads 3")
+    for i in range(3):
+        for l in progs[i]:
+            L.append("prog %d %s" % (i, l))
+    L += ["run noref", "init 60", "load 60 0 bind=0 synthetic pack:2 numa:1 core:2 pu:2", "cons 60 exportxml", "destroy 60", "cons 63 exportxml", "destroy 63"]
+    return "\n".join(L) + "\n"
